@@ -54,7 +54,7 @@ func NewCG(p *Prog) *CG {
 		})
 		// closures created are potential calls too (conservative for reachability)
 		for _, f := range p.Funcs {
-			Instrs(f, func(in ssa.Instruction) {
+			InstrsShallow(f, func(in ssa.Instruction) {
 				if mc, ok := in.(*ssa.MakeClosure); ok {
 					if fn, ok := mc.Fn.(*ssa.Function); ok {
 						add(f, fn)
@@ -73,7 +73,7 @@ func NewCG(p *Prog) *CG {
 		}
 	}
 	for _, f := range p.Funcs {
-		Instrs(f, func(in ssa.Instruction) {
+		InstrsShallow(f, func(in ssa.Instruction) {
 			if mc, ok := in.(*ssa.MakeClosure); ok {
 				if fn, ok := mc.Fn.(*ssa.Function); ok {
 					add(f, fn)
